@@ -153,6 +153,9 @@ class AddressMixin:
 
     def _union_instersection(self, other, min_, max_):
         """Assumes rectangular only"""
+        if other in ERROR_CODES:
+            # e.g. the empty intersection of two other ranges
+            return other
         if not is_address(other):
             other = AddressRange.create(other)
         if self.sheet and other.sheet and self.sheet != other.sheet:
